@@ -134,4 +134,24 @@ mod verif_session {
         assert_eq!(text_of(&s, &a2).as_deref(), Some("a2"), "VERIF-SYMPTOM a re-opened document is served with another text");
         assert_eq!(text_of(&s, &b).as_deref(), Some("bb"), "VERIF-SYMPTOM re-opening a document changed another");
     }
+
+    // C13, re-open: a document that is already known is opened again with another text of the same byte length and the same line
+    // starts but a different layout of multi-byte characters; the next edit must land where the client means it
+    fn reopen(first: &str, second: &str, change: TextDocumentContentChangeEvent, expect: &str) {
+        let mut s = Server::new(ClientSocket::new_closed(), vec![]);
+        let uri = open(&mut s, "r", first);
+        let uri2 = open(&mut s, "r", second);
+        assert_eq!(uri, uri2);
+        assert_eq!(text_of(&s, &uri).as_deref(), Some(&*second.replace('\r', "")), "VERIF-SYMPTOM re-opening a document did not replace its text");
+        self::change(&mut s, &uri, vec![change]);
+        assert_eq!(text_of(&s, &uri).as_deref(), Some(expect), "VERIF-SYMPTOM server text differs from the client's text (CR removed) after an edit history");
+    }
+    #[tokio::test]
+    async fn history_reopen_same_layout_1() { reopen("abc\nxyz", "\u{e9}c\nxyz", ch(Some((0, 2, 0, 2)), "!"), "\u{e9}c!\nxyz"); }
+    #[tokio::test]
+    async fn history_reopen_same_layout_2() { reopen("\u{e9}c\nxyz", "abc\nxyz", ch(Some((0, 2, 0, 2)), "!"), "ab!c\nxyz"); }
+    #[tokio::test]
+    async fn history_reopen_same_layout_3() { reopen("abcde\r\nz", "a\u{1F600}\r\nz", ch(Some((0, 3, 0, 3)), "!"), "a\u{1F600}!\nz"); }
+    #[tokio::test]
+    async fn history_reopen_then_empty_full_text() { reopen("ab", "cd", ch(None, ""), ""); }
 }
